@@ -21,6 +21,7 @@ type Clause struct {
 	File string
 	Line int
 	Tag  string // optional label: "ensures[name]"
+	Cond Expr   // assigns: the target is written only if Cond holds ("assigns x if c")
 }
 
 type LoopSpec struct {
@@ -370,7 +371,16 @@ func (s *Specs) LoadSpecFile(path string, pkgPath string) error {
 					}
 					c := &Clause{Kind: "assigns", Text: part, File: path, Line: rl.line}
 					if part != "*" {
-						e, err := ParseExpr(part)
+						tgt := part
+						if k := strings.Index(part, " if "); k >= 0 {
+							ce, err := ParseExpr(part[k+4:])
+							if err != nil {
+								return perr(rl.line, "assigns condition: %v", err)
+							}
+							c.Cond = ce
+							tgt = part[:k]
+						}
+						e, err := ParseExpr(tgt)
 						if err != nil {
 							return perr(rl.line, "assigns: %v", err)
 						}
